@@ -17,6 +17,7 @@ func init() { suites["C20"] = suiteC20 }
 // sequential operation sequences on the real EventRouter; every subscription has a reader
 // that keeps reading, so what it received is the list of delivered events
 func routerSeq(rng *rand.Rand, w *Writer) {
+	w.Begin("router: a sequence of subscribe/unsubscribe/publish operations")
 	r := server.NewEventRouter[int, int](4)
 	type sub struct {
 		ch   <-chan int
@@ -111,6 +112,7 @@ func routerSeq(rng *rand.Rand, w *Writer) {
 // a publisher blocked on a full subscription while that subscription is unsubscribed: every
 // linearisation delivers a prefix of the published events, never panics, closes the channel once
 func routerConc(rng *rand.Rand, w *Writer) {
+	w.Begin("router: publish blocked on a full subscription while it is unsubscribed")
 	r := server.NewEventRouter[int, int](1)
 	ch := r.Subscribe(7)
 	other := r.Subscribe(8)
@@ -181,6 +183,7 @@ loop:
 // unsubscribed channel is closed (once), every other subscription is open, still routed, and gets the next event
 // exactly once; nothing panics
 func routerUnsubStorm(rng *rand.Rand, w *Writer) {
+	w.Begin("router: many subscriptions unsubscribed at once")
 	const nsub, nvict = 12000, 120 // long look-ups, many at once: the goroutines' look-ups overlap even when few processors are free
 	r := server.NewEventRouter[int, int](2)
 	chans := make([]<-chan int, nsub)
@@ -255,6 +258,7 @@ func routerUnsubStorm(rng *rand.Rand, w *Writer) {
 // order the publications take effect in (the router serialises them), every subscriber sees THAT order - the same sequence
 // for all - every event once, each publisher's own events in the order it published them
 func routerPublishers(rng *rand.Rand, w *Writer) {
+	w.Begin("router: several goroutines publishing for one identifier")
 	const npub, nev, nsub = 4, 60, 3
 	r := server.NewEventRouter[int, int](npub * nev)
 	subs := make([]<-chan int, nsub)
